@@ -311,7 +311,7 @@ impl World {
                 let Ok(el) = store.get_element(ElementId::new(kind, n)).await else { continue };
                 let id = format!("{c}{n}");
                 let (full, mut e) = match &el {
-                    Element::Concept(r) => (serde_json::to_value(r).unwrap_or(Value::Null), RawElem { version: r.version, state: r.state.clone(), ty: type_code(&r.schema_ref), key: code_of(&r.key), val: code_of(&r.name), att: code_of(r.attributes.get("note").and_then(|v| v.as_str()).unwrap_or("")), fac: r.facets.iter().find(|(k, _)| k.as_str() == "MnemonicState" || k.ends_with("/MnemonicState")).and_then(|(_, f)| f.get("salience")).and_then(|v| v.as_f64()).map(|x| (x * 10.0).round() as u32).unwrap_or(0), ret: ret_code(&r.retention), links: vec![], pay: 0, tup: "-".into(), seq: r.seq, schema_ref: r.schema_ref.clone(), key_text: r.key.clone(), tuple_key: String::new(), full: String::new() }),
+                    Element::Concept(r) => (serde_json::to_value(r).unwrap_or(Value::Null), RawElem { version: r.version, state: r.state.clone(), ty: type_code(&r.schema_ref), key: code_of(&r.key), val: code_of(&r.name), att: code_of(r.attributes.get("note").and_then(|v| v.as_str()).unwrap_or("")), fac: r.facets.iter().find(|(k, _)| k.as_str() == "MnemonicState" || k.ends_with("/MnemonicState")).and_then(|(_, f)| f.get("salience")).and_then(|v| v.as_f64()).map(|x| (x * 10.0).round() as u32).unwrap_or(0), ret: ret_code(&r.retention), links: if r.merged_into.is_empty() { vec![] } else { vec![row_number(&r.merged_into)] }, pay: 0, tup: "-".into(), seq: r.seq, schema_ref: r.schema_ref.clone(), key_text: r.key.clone(), tuple_key: String::new(), full: String::new() }),
                     Element::Proposition(r) => {
                         let tup = if r.tuple_key.starts_with("pending:") || r.tuple_key.starts_with("purged:") { "-".to_string() } else {
                             format!("{}>{}>{}", compact_id(r.subject["id"].as_str().unwrap_or("?")), pred_code(&r.predicate_ref), compact_id(r.object["id"].as_str().unwrap_or("?")))
@@ -370,7 +370,14 @@ impl World {
             }
             k.all.push((id.clone(), e.version, referenced));
             match id.chars().next() {
-                Some('C') => k.concepts.push((id.clone(), e.ty, e.version, e.state.clone(), e.key)),
+                Some('C') => {
+                    // a merged-away Concept answers with the type of the identity that survived
+                    let mut cur = id.clone();
+                    let mut hops = 0;
+                    while let Some(n) = raw.elems.get(&cur).and_then(|x| x.links.first().copied()) { let next = format!("C{n}"); if next == *id || hops > 64 { break; } cur = next; hops += 1; }
+                    let ty = if cur != *id { k.merged.push((id.clone(), cur.clone())); raw.elems.get(&cur).map(|x| x.ty).unwrap_or(e.ty) } else { e.ty };
+                    k.concepts.push((id.clone(), ty, e.version, e.state.clone(), e.key))
+                }
                 Some('P') => k.props.push((id.clone(), e.version)),
                 _ => k.others.push((id.clone(), e.version)),
             }
